@@ -101,6 +101,19 @@ PROPS['C10'] = {
     ],
 }
 
+PROPS['C21'] = {
+    'units': ['reader'],
+    'functions': ['rule_reader.rs::strip_comments', 'rule_reader.rs::separate_rules', 'rule_reader.rs::check_last_char',
+                  'rule_reader.rs::is_decimal_point', 'rule_reader.rs::trim_error_line'],
+    'oracles': {'*': 'c21_load'},
+    'not_covered': [
+        'read_facts_and_rules / load_kb_from_file: iteration over io::Lines is outside Verus; in particular the joining of the stripped lines (long_line += &line, without a separator) is only read, not proved',
+        'parse_rule itself (string parsing; see C18 for its panic-freedom)',
+        'unmatched_bracket: assumed contract (its body crashes Verus 0.2026.09.13 on String + &String)',
+        "str::trim is specified only as 'a contiguous sub-sequence' (T3)",
+    ],
+}
+
 PROPS['C22'] = {
     'units': [],
     'functions': [],
